@@ -862,6 +862,9 @@ class RTCPeerConnection(AsyncIOEventEmitter):
 
         # gather candidates
         await self.__gather()
+
+        # the connection may have been closed while we were gathering
+        self.__assertNotClosed()
         for i, media in enumerate(description.media):
             if media.kind in ["audio", "video"]:
                 transceiver = self.__getTransceiverByMLineIndex(i)
@@ -1051,6 +1054,9 @@ class RTCPeerConnection(AsyncIOEventEmitter):
             for iceTransport, media in iceCandidates.items()
         ]
         await asyncio.gather(*coros)
+
+        # the connection may have been closed while we were waiting
+        self.__assertNotClosed()
 
         # FIXME: in aiortc 2.0.0 emit RTCTrackEvent directly
         for event in trackEvents:
